@@ -232,7 +232,7 @@ def queries(W, drv, rng, full):
                 cand = vals if full else rng.sample(vals, 2)
                 extra = [v for v in present[key] if not any(ch in v for ch in "*?[")]
                 if extra:
-                    pick = rng.sample(extra, min(2, len(extra)))
+                    pick = extra[:4] if full else rng.sample(extra, min(2, len(extra)))
                     cand = list(cand) + pick + [v.swapcase() for v in pick[:1]]
                 for v in cand:
                     got = sorted(W.el(x) for x in GET[ck](P, v, key=KEYSTR[key]))
